@@ -2997,8 +2997,11 @@ static EbErrorType verify_settings(
 
     // prediction structure
     if(config->enable_manual_pred_struct) {
-        if(config->manual_pred_struct_entry_num > (1<<(MAX_HIERARCHICAL_LEVEL-1))){
-            SVT_LOG("Error instance %u: Invalid manual prediction structure entry number [1 - 32], your input: %d\n", channel_number + 1, config->manual_pred_struct_entry_num);
+        // the structure is installed as the mini-GOP of the matching hierarchical level: 1, 2, 4, 8, 16 or 32 entries
+        if(config->manual_pred_struct_entry_num < 1 ||
+           config->manual_pred_struct_entry_num > (1<<(MAX_HIERARCHICAL_LEVEL-1)) ||
+           (config->manual_pred_struct_entry_num & (config->manual_pred_struct_entry_num - 1))){
+            SVT_LOG("Error instance %u: Invalid manual prediction structure entry number [1, 2, 4, 8, 16, 32], your input: %d\n", channel_number + 1, config->manual_pred_struct_entry_num);
             return_error = EB_ErrorBadParameter;
         }
         else {
